@@ -16,7 +16,7 @@
    (possibly empty).  The required list MetricBatch.Metrics has no such
    distinction on the wire or after reading (the reader always allocates). *)
 From Coq Require Import ZArith List Bool.
-From Tally Require Import Base.Obs Model.Varint.
+From Tally Require Import Base.ObsCore Model.Varint.
 Import ListNotations.
 Open Scope Z_scope.
 
